@@ -200,14 +200,17 @@ Fixpoint send_loop (fuel : nat) (cur : bytes) (total : nat) (sc : list sev) (w :
       end
   end.
 
+(* sbuf.append(data) has happened;
+   if len(sbuf) > 1: sbuf[:] = [b''.join([s for s in sbuf if s])] *)
+Definition join_sbuf (sb : list bytes) : list bytes :=
+  match sb with
+  | _ :: _ :: _ => [concat (filter (fun b => negb (is_nil b)) sb)]
+  | _ => sb
+  end.
+Definition sbuf_head (sb : list bytes) : bytes := match sb with c :: _ => c | [] => [] end.
+
 Definition send (s : bs) (data : bytes) : outcome * bs :=
-  (* sbuf.append(data); if len(sbuf) > 1: sbuf[:] = [b''.join([s for s in sbuf if s])] *)
-  let sb := sbuf s ++ [data] in
-  let sb := match sb with
-            | _ :: _ :: _ => [concat (filter (fun b => negb (is_nil b)) sb)]
-            | _ => sb
-            end in
-  let cur := match sb with c :: _ => c | [] => [] end in
+  let cur := sbuf_head (join_sbuf (sbuf s ++ [data])) in
   match send_loop (S (length cur)) cur 0 (script s) (wire s) with
   | (Some total, cur', sc', w') => (ONat total, set_send s [cur'] sc' w')
   | (None, cur', sc', w') => (OExn Timeout, set_send s [cur'] sc' w')
@@ -281,38 +284,26 @@ Fixpoint run_retry (s : bs) (ops : list op) : list outcome :=
 (* int(size_prefix) for ASCII digits; anything else is treated as invalid
    (Python's int() also accepts surrounding whitespace, a sign and '_'
    separators: the harness never puts those bytes into a size prefix) *)
-Fixpoint digits_uint (b : bytes) : option Decimal.uint :=
+Definition digit_val (c : N) : option nat :=
+  if N.leb 48 c && N.leb c 57 then Some (N.to_nat c - 48) else None.
+
+Fixpoint int_acc (b : bytes) (acc : nat) : option nat :=
   match b with
-  | [] => Some Decimal.Nil
-  | c :: r =>
-      match digits_uint r with
-      | None => None
-      | Some u =>
-          if N.eqb c 48 then Some (Decimal.D0 u) else if N.eqb c 49 then Some (Decimal.D1 u)
-          else if N.eqb c 50 then Some (Decimal.D2 u) else if N.eqb c 51 then Some (Decimal.D3 u)
-          else if N.eqb c 52 then Some (Decimal.D4 u) else if N.eqb c 53 then Some (Decimal.D5 u)
-          else if N.eqb c 54 then Some (Decimal.D6 u) else if N.eqb c 55 then Some (Decimal.D7 u)
-          else if N.eqb c 56 then Some (Decimal.D8 u) else if N.eqb c 57 then Some (Decimal.D9 u)
-          else None
-      end
+  | [] => Some acc
+  | c :: r => match digit_val c with
+              | Some d => int_acc r (acc * 10 + d)
+              | None => None
+              end
   end.
 
 Definition py_int (b : bytes) : option nat :=
   match b with
   | [] => None                        (* int(b'') raises ValueError *)
-  | _ => option_map Nat.of_uint (digits_uint b)
+  | _ => int_acc b 0
   end.
 
-Fixpoint uint_digits (u : Decimal.uint) : bytes :=
-  match u with
-  | Decimal.Nil => []
-  | Decimal.D0 r => 48%N :: uint_digits r | Decimal.D1 r => 49%N :: uint_digits r
-  | Decimal.D2 r => 50%N :: uint_digits r | Decimal.D3 r => 51%N :: uint_digits r
-  | Decimal.D4 r => 52%N :: uint_digits r | Decimal.D5 r => 53%N :: uint_digits r
-  | Decimal.D6 r => 54%N :: uint_digits r | Decimal.D7 r => 55%N :: uint_digits r
-  | Decimal.D8 r => 56%N :: uint_digits r | Decimal.D9 r => 57%N :: uint_digits r
-  end.
-Definition py_str (n : nat) : bytes := uint_digits (Nat.to_uint n).   (* str(n).encode('ascii') *)
+(* str(n).encode('ascii'): decimal notation (Lib.C12_Base.dec); trusted builtin *)
+Definition py_str (n : nat) : bytes := dec n.
 
 Record ns := mkNS {
   ns_bs : bs;               (* self.bsock = BufferedSocket(sock): default maxsize/recvsize *)
@@ -385,4 +376,23 @@ Fixpoint ns_run (wside : bool) (stream_len : nat) (x : ns) (ops : list nsop) : l
                 else mkObs out (getrecvbuffer (ns_bs x')) (consumed stream_len (ns_bs x')) in
       let '(obs, x'') := ns_run wside stream_len x' r in
       ((o, ob) :: obs, x'')
+  end.
+
+(* a reader that repeats read_ns after Timeout *)
+Fixpoint read_ns_retry (fuel : nat) (x : ns) (m : option nat) : outcome * ns :=
+  match read_ns x m with
+  | (OExn Timeout, x') =>
+      match fuel with
+      | 0 => (OExn Timeout, x')
+      | S f => read_ns_retry f x' m
+      end
+  | r => r
+  end.
+
+Fixpoint ns_read_retry (x : ns) (k : nat) : list outcome :=
+  match k with
+  | 0 => []
+  | S k' =>
+      let '(out, x') := read_ns_retry (timeouts (nt (ns_bs x))) x None in
+      out :: ns_read_retry x' k'
   end.
